@@ -281,10 +281,17 @@ Section PathStr.
 End PathStr.
 
 (* ---------- generation state ---------- *)
-Record gst := { next_priv : N; stmts : list str }.
-Definition emit_stmt (st : gst) (s : str) : gst := {| next_priv := next_priv st; stmts := stmts st ++ [s] |}.
+(* `hoists` is ghost information (it never reaches the emitted text): which expression each hoisted
+   private variable was assigned; the soundness theorems of the path analysis use it *)
+Record gst := { next_priv : N; stmts : list str; hoists : list (str * expr) }.
+Definition mk_gst (n : N) : gst := {| next_priv := n; stmts := []; hoists := [] |}.
+Definition emit_stmt (st : gst) (s : str) : gst :=
+  {| next_priv := next_priv st; stmts := stmts st ++ [s]; hoists := hoists st |}.
+Definition emit_hoist (st : gst) (ident : str) (e : expr) (text : str) : gst :=
+  {| next_priv := next_priv st; stmts := stmts st ++ [lit "var " ++ ident ++ lit "=" ++ text];
+     hoists := hoists st ++ [(ident, e)] |}.
 Definition gen_private (st : gst) : str * gst :=
-  (36 :: var_name (next_priv st), {| next_priv := next_priv st + 1; stmts := stmts st |}).
+  (36 :: var_name (next_priv st), {| next_priv := next_priv st + 1; stmts := stmts st; hoists := hoists st |}).
 
 Record gout := { g_val : str; g_pas : option ppath; g_calc : list ppath }.
 
@@ -352,7 +359,7 @@ Section Gen.
           let '(ident, st0) := gen_private st in
           let '(st1, ok) := wrapg L_Cond (pg_level k) (gen_core k st0) in
           let ok := end_path ok in
-          let st2 := emit_stmt st1 (lit "var " ++ ident ++ lit "=" ++ g_val ok) in
+          let st2 := emit_hoist st1 ident k (g_val ok) in
           let '(st3, oo) := wrapg L_Cond (pg_level o) (gen_core o st2) in
           (st3, {| g_val := lit "X(" ++ g_val oo ++ lit ")[" ++ ident ++ lit "]";
                    g_pas := push_tail (g_pas oo) (TIndirect ident); g_calc := g_calc ok ++ g_calc oo |})
@@ -369,7 +376,7 @@ Section Gen.
           let '(ident, st0) := gen_private st in
           let '(st1, ol) := wrapg L_Cond (pg_level l) (gen_core l st0) in
           let ol := end_path ol in
-          let st2 := emit_stmt st1 (lit "var " ++ ident ++ lit "=" ++ g_val ol) in
+          let st2 := emit_hoist st1 ident l (g_val ol) in
           let '(st3, or) := wrapg L_Cond (pg_level r) (gen_core r st2) in
           let or := end_path or in
           (st3, {| g_val := ident ++ lit "!=null?" ++ ident ++ lit ":" ++ g_val or; g_pas := None;
@@ -384,7 +391,7 @@ Section Gen.
           let '(ident, st0) := gen_private st in
           let '(st1, oc) := wrapg L_Cond (pg_level c) (gen_core c st0) in
           let oc := end_path oc in
-          let st2 := emit_stmt st1 (lit "var " ++ ident ++ lit "=" ++ g_val oc) in
+          let st2 := emit_hoist st1 ident c (g_val oc) in
           let '(st3, ot) := wrapg L_Cond (pg_level t) (gen_core t st2) in
           let '(st4, of) := wrapg L_Cond (pg_level f) (gen_core f st3) in
           (st4, {| g_val := ident ++ lit "?" ++ g_val ot ++ lit ":" ++ g_val of;
